@@ -220,13 +220,14 @@ package keeper
 // list handed to consensus is specified here: the store writes and hooks are treated as not touching it.)
 //@ func (Keeper).ApplyValidatorChanges
 //@   flag noframe
-//@   flag pure=ToConsAddr,GetExocoreValidator,Logger,NewExocoreValidator,ToSdkKey,ToTmProtoKey,GetOperatorAddressForChainIDAndConsAddr,ChainIDWithoutRevision,Hooks,AfterValidatorBonded,AfterValidatorRemoved,AfterValidatorCreated,DeleteExocoreValidator,SetExocoreValidator,SetValidatorUpdates
+//@   flag pure=ToConsAddr,GetExocoreValidator,Logger,NewExocoreValidator,ToSdkKey,ToTmProtoKey,GetOperatorAddressForChainIDAndConsAddr,ChainIDWithoutRevision,Hooks,AfterValidatorBonded,AfterValidatorRemoved,AfterValidatorCreated,SetValidatorUpdates
 //@ loop #1
 //@   invariant -1 <= rangeindex && rangeindex < len(changes)
 //@   step[C06.avc.new] !res_GetExocoreValidator_1 && changes[rangeindex].Power >= 1 ==>
 //@        res_NewExocoreValidator_1 != nil || (defined(res_AfterValidatorBonded_0) && (res_AfterValidatorBonded_0 != nil ||
 //@        (len(ret) == len(prev_ret) + 1 && ret[len(prev_ret)].Power == changes[rangeindex].Power)))
 //@   step[C06.avc.none] !res_GetExocoreValidator_1 && changes[rangeindex].Power < 1 ==> ret == prev_ret
+//@   step[C06.avc.agree] ret == prev_ret ==> state(ctx) == old(state(ctx))
 //@   step[C06.avc.power] ret == prev_ret || (len(ret) == len(prev_ret) + 1 && ret[len(prev_ret)].Power == changes[rangeindex].Power)
 
 // C16 (an opt-out is queued for the unbonding period exactly when the operator's key is in the validator set; a key
